@@ -254,7 +254,7 @@ def run(ctx, tier):
             'Decides where the advisory lock is taken and how long it lives: (lock-before-use) a blocking lock_exclusive with checked result dominates every memory-map creation and '
             'header read in the trace of OpenOptions::open; (lock-before-write) it also dominates every write/growth of the creation branch; (lock-lives) the locked File is the value '
             'stored in DBInner.file, DBInner is built only in DBInner::open and owned only through the Arc in DB, and the crate never calls unlock / try_clone / raw-fd conversions. '
-            'NOT decided: flock semantics between processes, the exists/create race itself, waiting behaviour.'),
+            '(lock-lives) the File stored in DBInner.file is on every path the locked one; (lock-before-write) after the image write the creation branch does not size the file again before the lock; (open-existing) open writes only into files it created. NOT decided: flock semantics between processes, the exists/create race itself, waiting behaviour.'),
         assumptions=['flock(LOCK_EX) on an open file description excludes other openers until the description is closed'])
 
 
